@@ -37,7 +37,7 @@ m=json.load(open('$SRC/m$K.json'))
 m.update({"breaks_property":"$ID","confirmed":{"demo_on_clean_tree_exit":$CLEAN,"demo_with_change_exit":$MUT,"suite_with_change_exit":$SUITE},
  "what_i_ran":"tools/trymut.sh $ID $K $TIER: scratch worktree of /repo HEAD, demo test before/after git apply, unedited suite with the change, then VERIF_REPO=<worktree> ./run.sh $ID $TIER",
  "check_exit":$CHECK,"detected":$CHECK==1,"tier":"$TIER",
- "first_violation":open('/tmp/mut/eval-$ID-$K.check.log').read().split('VIOLATION',1)[-1][:400] if $CHECK==1 else ""})
+ "first_violation":open('/tmp/mut/eval-$ID-$K.check.log', errors='replace').read().split('VIOLATION',1)[-1][:400] if $CHECK==1 else ""})
 json.dump(m,open('$D/meta.json','w'),indent=1)
 PY
 # evidence files must describe /repo, not the mutant: re-run nothing here, caller restores evidence via git
